@@ -243,9 +243,9 @@ func genArrival(t *rapid.T, n int) []int {
 func genControlled(t *rapid.T) wcase {
 	c := wcase{Workers: 1}
 	c.Writer = rapid.SampledFrom(writers).Draw(t, "writer")
-	n := gen.Len(t, "n", 0, 12, 1, 2)
-	if c.Writer == "sequence" && n == 0 {
-		n = 1
+	n := gen.Len(t, "n", 1, 12, 2, 3)
+	if c.Writer != "sequence" && rapid.IntRange(0, 39).Draw(t, "zero_batches") == 0 {
+		n = 0
 	}
 	c.SeqLen = rapid.SampledFrom([]int{1, 7, 59, 60, 61, 120, 300}).Draw(t, "seqlen")
 	c.Sizes = genSizes(t, n, []int{1, 1, 2, 3, 5, 17, 40})
